@@ -18,7 +18,7 @@ DEV = {
     "finding-family-read": ("TagIndexTrace_dev_family.cfg", "family-read"),
     "finding-forward-lut": ("TagIndexTrace_dev_lut.cfg", "forward-lut"),
 }
-T_ACTIONS = ["TReset", "TWrite", "TPrepMeta", "TFlushMeta", "TCompactMeta", "TPrepIdx", "TFlushIdx", "TCompactIdx",
+T_ACTIONS = ["TFlushIdxFail", "TFlushMetaFail", "TReset", "TWrite", "TPrepMeta", "TFlushMeta", "TCompactMeta", "TPrepIdx", "TFlushIdx", "TCompactIdx",
              "TReopen", "TRefresh", "TQuery", "TDict"]
 
 
@@ -197,10 +197,10 @@ def run(ctx, replay):
     os.makedirs(scr, exist_ok=True)
     if thorough:
         args = ["--small", 150, "--tour", 30, "--steps", 10, "--q", 4, "--big", 2, "--big-n", 70000, "--big-q", 3,
-                "--enum-every", 1, "--enum-depth2", 30, "--enum-triples", 40, "--findings", 2, "--lut", "--window", 24]
+                "--enum-every", 1, "--enum-depth2", 30, "--enum-triples", 40, "--findings", 2, "--lut", "--window", 24, "--flushfail", 24]
     else:
         args = ["--small", 16, "--tour", 4, "--steps", 8, "--q", 4, "--big", 1, "--big-n", 3000, "--big-q", 4,
-                "--enum-every", 13, "--enum-depth2", 20, "--findings", 2, "--lut", "--window", 4]
+                "--enum-every", 13, "--enum-depth2", 20, "--findings", 2, "--lut", "--window", 4, "--flushfail", 4]
     summ, rc, _ = ctx.run_vdrive(["tagidx", "--seed", ctx.seed, "--out", tr, "--out-findings", trf, "--scratch", scr] + args,
                                  timeout=2400)
     for u in summ["unresolved"]:
@@ -230,6 +230,7 @@ def run(ctx, replay):
         "pinned semantics (from the grammar and index/kv_store.go): negated atoms are true only for series that HAVE the key; like shapes are read off the ends of the pattern (lit*, *lit, *lit*, otherwise equality; '**' and a lone '*' = contains the empty string); and / or have one precedence level and associate to the left; group by drops the series that lack one of the grouping keys; an empty selection is an empty answer; unknown metrics / tag keys are errors and are not asked",
         "regular expressions are drawn from the structured class of SortedDict (alternations of literals, prefix / suffix / contains / exact, anchored or not, rendered for Go's regexp); tag values are valid UTF-8 without the single quote (a value containing ' cannot be written in a query: the lexer has no escape)",
         "index placements are forced through the exported FlushLifeCycle of MetaDB() / IndexDB() (PrepareFlush, Flush), Family.Compact and engine close / open, on one thread; 'being flushed' includes the commit of the flush: in the window universes the flushing goroutine itself asks / writes at the table-file seam of the kv layer (file of the flush complete, not yet committed, immutable generation still in memory), then asks for every entry that flush persisted and re-uses it in new series. Free-running queries racing a flush on other threads are C12 / C19, crash recovery of the dictionaries is C07 / C09",
+        "flush faults (flushfail universes): the completion of the table file of ONE family of a flush fails (injected at the table-file seam, the environment's fault: disk full / i/o error at close); the stores flushed before it have committed, the failing store and the ones after it keep their immutable generation; questions right after the failure, new series, the retry, compaction, reopen",
         "a listing of the tag value dictionary of a key (Dict event, before every dictionary compaction and at the stops of the window universes) must be a function value -> id over exactly the created values; a history in which the driver itself sees a repeated value is not continued into a dictionary compaction (the merger panics on a background goroutine)",
         "the per-metric id of a series (bitmap position) is taken to be its creation order inside the metric; the specification checks that these ids are dense",
     ]
